@@ -46,6 +46,7 @@ type VerifC20Obs struct {
 	//   bookkeeping:<what>   table and mapping of the real cache are out of step after this operation
 	//   once-state-leaked    a *Line returned by this Load already carries Line.once state (FirstTime was false)
 	//   save-failed          SaveAutofixChanges reported "Cannot write" for a blocked file
+	//   hit                  FileCache.hits went up during this Load (round 5)
 	Flags []string
 }
 
@@ -271,7 +272,12 @@ func VerifFileCacheScript(dir string, capacity int, mode string, files map[int]s
 					}
 				}
 				fresh := verifC20Lines(verifC20Fresh(filename, options))
+				hitsBefore := G.fileCache.hits
 				lines := Load(filename, options)
+				if G.fileCache.hits != hitsBefore {
+					// round 5: FileCache.hits went up: this Load was served by the cache
+					obs.Flags = append(obs.Flags, "hit")
+				}
 				got := verifC20Lines(lines)
 				obs.Token = "L" + guard + ":" + got + ":" + fresh
 				if got != fresh {
